@@ -30,15 +30,15 @@ func init() {
 			}
 			return Simple("PONG")
 		}},
-		"ECHO":     {2, false, func(c *Ctx) Reply { return Bulk(c.Argv[1]) }},
-		"HELLO":    {-1, false, cmdHello},
-		"AUTH":     {-2, false, cmdAuth},
-		"SELECT":   {2, false, cmdSelect},
-		"CLIENT":   {-2, false, cmdClient},
-		"READONLY": {1, false, func(c *Ctx) Reply { c.Sess.ReadOnly = true; return Simple("OK") }},
+		"ECHO":      {2, false, func(c *Ctx) Reply { return Bulk(c.Argv[1]) }},
+		"HELLO":     {-1, false, cmdHello},
+		"AUTH":      {-2, false, cmdAuth},
+		"SELECT":    {2, false, cmdSelect},
+		"CLIENT":    {-2, false, cmdClient},
+		"READONLY":  {1, false, func(c *Ctx) Reply { c.Sess.ReadOnly = true; return Simple("OK") }},
 		"READWRITE": {1, false, func(c *Ctx) Reply { c.Sess.ReadOnly = false; return Simple("OK") }},
-		"ASKING":   {1, false, func(c *Ctx) Reply { c.Sess.asking = true; return Simple("OK") }},
-		"QUIT":     {1, false, func(c *Ctx) Reply { return Simple("OK") }},
+		"ASKING":    {1, false, func(c *Ctx) Reply { c.Sess.asking = true; return Simple("OK") }},
+		"QUIT":      {1, false, func(c *Ctx) Reply { return Simple("OK") }},
 		"ROLE": {1, false, func(c *Ctx) Reply {
 			if c.S.Role == "master" {
 				return Arr(Bulk("master"), Int(0), Arr())
@@ -138,10 +138,22 @@ func init() {
 			}
 			return Int(int64(len(e.s)))
 		}},
-		"INCR":        {2, true, func(c *Ctx) Reply { return incrBy(c, c.Argv[1], 1) }},
-		"DECR":        {2, true, func(c *Ctx) Reply { return incrBy(c, c.Argv[1], -1) }},
-		"INCRBY":      {3, true, func(c *Ctx) Reply { n, err := strconv.ParseInt(c.Argv[2], 10, 64); if err != nil { return Err("ERR value is not an integer or out of range") }; return incrBy(c, c.Argv[1], n) }},
-		"DECRBY":      {3, true, func(c *Ctx) Reply { n, err := strconv.ParseInt(c.Argv[2], 10, 64); if err != nil { return Err("ERR value is not an integer or out of range") }; return incrBy(c, c.Argv[1], -n) }},
+		"INCR": {2, true, func(c *Ctx) Reply { return incrBy(c, c.Argv[1], 1) }},
+		"DECR": {2, true, func(c *Ctx) Reply { return incrBy(c, c.Argv[1], -1) }},
+		"INCRBY": {3, true, func(c *Ctx) Reply {
+			n, err := strconv.ParseInt(c.Argv[2], 10, 64)
+			if err != nil {
+				return Err("ERR value is not an integer or out of range")
+			}
+			return incrBy(c, c.Argv[1], n)
+		}},
+		"DECRBY": {3, true, func(c *Ctx) Reply {
+			n, err := strconv.ParseInt(c.Argv[2], 10, 64)
+			if err != nil {
+				return Err("ERR value is not an integer or out of range")
+			}
+			return incrBy(c, c.Argv[1], -n)
+		}},
 		"MGET": {-2, false, func(c *Ctx) Reply {
 			out := make([]Reply, 0, len(c.Argv)-1)
 			for _, k := range c.Argv[1:] {
@@ -237,8 +249,14 @@ func init() {
 			return Strs(out...)
 		}},
 
-		"HSET":    {-4, true, cmdHset},
-		"HMSET":   {-4, true, func(c *Ctx) Reply { r := cmdHset(c); if r.T == ':' { return Simple("OK") }; return r }},
+		"HSET": {-4, true, cmdHset},
+		"HMSET": {-4, true, func(c *Ctx) Reply {
+			r := cmdHset(c)
+			if r.T == ':' {
+				return Simple("OK")
+			}
+			return r
+		}},
 		"HSETNX": {4, true, func(c *Ctx) Reply {
 			e := c.get(c.Argv[1])
 			if e != nil && e.kind == 'h' {
@@ -368,12 +386,12 @@ func init() {
 			return Int(cur)
 		}},
 
-		"LPUSH":  {-3, true, func(c *Ctx) Reply { return push(c, true) }},
-		"RPUSH":  {-3, true, func(c *Ctx) Reply { return push(c, false) }},
-		"LPOP":   {-2, true, func(c *Ctx) Reply { return pop(c, c.Argv[1], true) }},
-		"RPOP":   {-2, true, func(c *Ctx) Reply { return pop(c, c.Argv[1], false) }},
-		"BLPOP":  {-3, true, func(c *Ctx) Reply { return bpop(c, true) }},
-		"BRPOP":  {-3, true, func(c *Ctx) Reply { return bpop(c, false) }},
+		"LPUSH": {-3, true, func(c *Ctx) Reply { return push(c, true) }},
+		"RPUSH": {-3, true, func(c *Ctx) Reply { return push(c, false) }},
+		"LPOP":  {-2, true, func(c *Ctx) Reply { return pop(c, c.Argv[1], true) }},
+		"RPOP":  {-2, true, func(c *Ctx) Reply { return pop(c, c.Argv[1], false) }},
+		"BLPOP": {-3, true, func(c *Ctx) Reply { return bpop(c, true) }},
+		"BRPOP": {-3, true, func(c *Ctx) Reply { return bpop(c, false) }},
 		"LLEN": {2, false, func(c *Ctx) Reply {
 			c.track(c.Argv[1])
 			e := c.get(c.Argv[1])
@@ -1065,7 +1083,7 @@ func cmdExec(c *Ctx) Reply {
 
 func subscribe(c *Ctx, list *[]string, kind string) Reply {
 	ss := c.Sess
-	for _, ch := range c.Argv[1:] {
+	for i, ch := range c.Argv[1:] {
 		found := false
 		for _, x := range *list {
 			if x == ch {
@@ -1080,6 +1098,9 @@ func subscribe(c *Ctx, list *[]string, kind string) Reply {
 			n = len(ss.SSubs)
 		}
 		ss.Out(Encode(nil, Push(Bulk(kind), Bulk(ch), Int(int64(n))), ss.V3))
+		if c.S.BetweenPushes != nil && i+1 < len(c.Argv[1:]) {
+			c.S.BetweenPushes(ss, kind, ch)
+		}
 	}
 	return Reply{}
 }
@@ -1154,7 +1175,7 @@ func cmdScript(c *Ctx) Reply {
 }
 
 // ScriptFlush forgets every cached script (like SCRIPT FLUSH from another client / a restart).
-func (s *Server) ScriptFlush() { s.scripts = map[string]string{} }
+func (s *Server) ScriptFlush()                 { s.scripts = map[string]string{} }
 func (s *Server) ScriptLoaded(sha string) bool { _, ok := s.scripts[sha]; return ok }
 
 func eval(c *Ctx, bySha, ro bool) Reply {
